@@ -96,3 +96,10 @@ package queue
 //@ modifies all(gmqtt.Message.PacketID), all(Pubrel.PacketID)
 //@ ensures m.(type *Publish) ==> m.(*Publish).Message.PacketID == id && (forall x *gmqtt.Message :: x != m.(*Publish).Message ==> x.PacketID == old(x.PacketID)) && (forall r *Pubrel :: r.PacketID == old(r.PacketID))
 //@ ensures m.(type *Pubrel) ==> m.(*Pubrel).PacketID == id && (forall r *Pubrel :: r != m.(*Pubrel) ==> r.PacketID == old(r.PacketID)) && (forall x *gmqtt.Message :: x.PacketID == old(x.PacketID))
+
+// ReadInflight hands out the in-flight entries of a resumed session: non-nil elements, each a *Publish carrying a
+// message or a *Pubrel, each with the non-zero packet identifier it was given (memory store: proved, C10).
+//@ func (Store).ReadInflight
+//@ params q, maxSize
+//@ ensures result1 != nil ==> len(result0) == 0
+//@ ensures forall i int :: 0 <= i && i < len(result0) ==> result0[i] != nil && ((result0[i].MessageWithID.(type *Publish) && result0[i].MessageWithID.(*Publish) != nil && result0[i].MessageWithID.(*Publish).Message != nil && result0[i].MessageWithID.(*Publish).Message.PacketID != 0) || (result0[i].MessageWithID.(type *Pubrel) && result0[i].MessageWithID.(*Pubrel) != nil && result0[i].MessageWithID.(*Pubrel).PacketID != 0))
